@@ -69,7 +69,9 @@ pub fn instantiate(
         decimals,
         spot_price_twap_interval: ONE_HOUR_IN_SECONDS,
         funding_period: msg.funding_period,
-        funding_buffer_period: msg.funding_period / 2u64,
+        // half a funding period, rounded up: with an odd number of seconds the truncated half let a
+        // second settlement in half a second early (a one-second period: in the same block)
+        funding_buffer_period: msg.funding_period / 2u64 + msg.funding_period % 2u64,
     };
 
     // set and update margin engine
